@@ -16,13 +16,13 @@ pub struct TokProg {
 }
 
 /// Generate program k (deterministic in rng). None if the generator self-check fails.
-pub fn generated(k: u64, rng: &mut Rng, cfg: Cfg, acc: &mut Acc) -> Option<TokProg> {
+pub fn generated(k: u64, rng: &Rng, cfg: Cfg, acc: &mut Acc) -> Option<TokProg> {
     let mut b = Builder::new(rng, cfg);
     let f = b.file();
     drop(b);
     let r = gast::render(&f);
-    let mut r0 = Rng::new(0, "selfcheck", k);
-    let (laid, _) = layout::lay(&r.toks, Layout::Pretty, &mut r0);
+    let r0 = Rng::new(0, "selfcheck", k);
+    let (laid, _) = layout::lay(&r.toks, Layout::Pretty, &r0);
     let sc = crate::prog::selfcheck(&r, &laid);
     if !sc.ok {
         acc.discards += 1;
@@ -48,7 +48,7 @@ pub fn from_corpus(p: &Prog, acc: &mut Acc) -> Option<TokProg> {
 }
 
 /// Lay the tokens out and make sure the lexer sees the same tokens again and the parser accepts.
-pub fn lay_checked(tp: &TokProg, l: Layout, rng: &mut Rng, acc: &mut Acc) -> Option<Laid> {
+pub fn lay_checked(tp: &TokProg, l: Layout, rng: &Rng, acc: &mut Acc) -> Option<Laid> {
     let (laid, kinds) = layout::lay(&tp.toks, l, rng);
     match layout::lex_texts(&laid.text) {
         Some(ts) if ts.len() == tp.toks.len() && ts.iter().zip(tp.toks.iter()).all(|(a, b)| *a == b.s) => {}
@@ -75,7 +75,7 @@ pub fn lay_checked(tp: &TokProg, l: Layout, rng: &mut Rng, acc: &mut Acc) -> Opt
 
 /// Token-level mutation of a corpus program: operator swaps and literal inflation; the result
 /// is kept only if it still parses.
-pub fn mutate(tp: &TokProg, rng: &mut Rng) -> Option<TokProg> {
+pub fn mutate(tp: &TokProg, rng: &Rng) -> Option<TokProg> {
     let mut toks = tp.toks.clone();
     let n = rng.range(1, 4);
     for _ in 0..n {
@@ -118,8 +118,8 @@ pub fn mutate(tp: &TokProg, rng: &mut Rng) -> Option<TokProg> {
             }
         }
     }
-    let mut r0 = Rng(7);
-    let (laid, _) = layout::lay(&toks, Layout::Pretty, &mut r0);
+    let r0 = Rng::from_seed(7);
+    let (laid, _) = layout::lay(&toks, Layout::Pretty, &r0);
     if crate::dets::parses(&laid.text) {
         // re-lex so that token boundaries are the lexer's (e.g. `1e18`)
         let toks = layout::lex(&laid.text)?;
